@@ -169,6 +169,20 @@ Theorem C16_digital_number_monotone :
 Proof. exact dn_spec_mono. Qed.
 Print Assumptions C16_digital_number_monotone.
 
+(* the four gain forms alike: a scalar g, the one-coefficient polynomial [g], a frame filled with g and a
+   one-slice cube filled with g digitise every frame identically (and warn identically) *)
+Theorem C16_adc_gain_forms_agree :
+  forall (img : arr QcS) (v : Qc) (a : arr QcS) (c : cube QcS) (sat : option Qc) (warn : bool),
+  nr a = nr img -> nc a = nc img -> (forall i j, get a i j = v) ->
+  cnk c = 1 -> cnr c = nr img -> cnc c = nc img -> (forall i j, cget c 0 i j = v) ->
+  exists w d0 d1 d2 d3,
+    adc img (G0 v) sat warn = Ok (w, d0) /\ adc img (G1 [v]) sat warn = Ok (w, d1) /\
+    adc img (G2 a) sat warn = Ok (w, d2) /\ adc img (G3 c) sat warn = Ok (w, d3) /\
+    forall i j, 0 <= i < nr img -> 0 <= j < nc img ->
+      get d1 i j = get d0 i j /\ get d2 i j = get d0 i j /\ get d3 i j = get d0 i j.
+Proof. exact adc_gain_forms_agree. Qed.
+Print Assumptions C16_adc_gain_forms_agree.
+
 (* a gain of rank > 3, or pixel axes that do not broadcast against the frame: ValueError *)
 Theorem C16_adc_rejects :
   forall (img : arr QcS) (g : gainrep) (sat : option Qc) (warn : bool),
